@@ -1,4 +1,5 @@
 import CheetahModel.Proofs.SpaceChargeProofs
+import CheetahModel.Proofs.CicProofs
 /-!
 # C19 — space-charge kicks change momenta only and scale with charge and length  (partial)
 
@@ -34,5 +35,40 @@ theorem positions_unchanged (s : SIConsts ℝ) (E0 mc2 : ℝ) (v : Vec7 ℝ) (dp
     let w' : Vec7 ℝ := { w with a1 := w.a1 + dpx, a3 := w.a3 + dpy, a5 := w.a5 + dpz }
     (fromXyz s E0 mc2 w').a0 = v.a0 ∧ (fromXyz s E0 mc2 w').a2 = v.a2 ∧ (fromXyz s E0 mc2 w').a4 = v.a4 :=
   positions_roundtrip s E0 mc2 v dpx dpy dpz hb
+
+
+/-- the deposited density does not depend on the order in which the particles are stored -/
+theorem deposit_order_independent (parts parts' : List (ℝ × ℝ × ℝ × ℝ)) (h : parts.Perm parts') (invVol : ℝ) (ix iy it : ℕ) :
+    cicDeposit parts invVol ix iy it = cicDeposit parts' invVol ix iy it := cicDeposit_perm parts parts' h invVol ix iy it
+
+/-- … hence neither does the kick of any particle: whatever the field solve (`solve`: density grid ↦ force grid) and the
+gather at the particle's own position (`gather`) are, they see the same density -/
+theorem kick_order_independent {G P : Type} (solve : (ℕ → ℕ → ℕ → ℝ) → G) (gather : G → P → ℝ)
+    (parts parts' : List (ℝ × ℝ × ℝ × ℝ)) (h : parts.Perm parts') (invVol : ℝ) (pos : P) :
+    gather (solve (cicDeposit parts invVol)) pos = gather (solve (cicDeposit parts' invVol)) pos := by
+  have : cicDeposit parts invVol = cicDeposit parts' invVol := by
+    funext ix iy it; exact cicDeposit_perm parts parts' h invVol ix iy it
+  rw [this]
+
+/-- the cloud-in-cell weights of one particle are non-negative and sum to one over a grid that contains it -/
+theorem weights_partition_of_unity (u : ℝ) (hu : 0 ≤ u) (n : ℕ) (hn : floorNat u + 1 < n) :
+    (∀ ic, 0 ≤ cicW u ic) ∧ ∑ ic ∈ Finset.range n, cicW u ic = 1 :=
+  ⟨cicW_nonneg u hu, cicW_sum u hu n hn⟩
+
+/-- charge conservation of the deposit: density × cell volume summed over the grid = total deposited weight `Σ q·s`
+(lost particles, `s = 0`, contribute nothing) -/
+theorem deposit_conserves_charge (nx ny nt : ℕ) (invVol : ℝ) (parts : List (ℝ × ℝ × ℝ × ℝ))
+    (h : ∀ p ∈ parts, (0 ≤ p.1 ∧ floorNat p.1 + 1 < nx) ∧ (0 ≤ p.2.1 ∧ floorNat p.2.1 + 1 < ny) ∧
+        (0 ≤ p.2.2.1 ∧ floorNat p.2.2.1 + 1 < nt)) :
+    ∑ ix ∈ Finset.range nx, ∑ iy ∈ Finset.range ny, ∑ it ∈ Finset.range nt, cicDeposit parts invVol ix iy it
+      = (parts.map fun p => p.2.2.2).sum * invVol := cicDeposit_total nx ny nt invVol parts h
+
+/-- non-vacuity: a particle in the interior of a 4-node axis -/
+example : (0:ℝ) ≤ 1.5 ∧ floorNat (1.5:ℝ) + 1 < 4 := by
+  have h := floorNat_spec (1.5:ℝ) (by norm_num)
+  refine ⟨by norm_num, ?_⟩
+  have : ((floorNat (1.5:ℝ) : ℕ) : ℝ) < 2 := by linarith [h.1]
+  have : floorNat (1.5:ℝ) < 2 := by exact_mod_cast this
+  omega
 
 end C19
